@@ -282,6 +282,22 @@ fn run_c27(tier: &str, seed: u64) -> i32 {
     extra.insert("stubbed_components".to_string(), json!(["thread scheduler (shuttle: seeded random and PCT depth 3)", "token source and action bodies (scheduling points)"]));
     extra.insert("compile_time_assertions".to_string(), json!("assert_send_sync::<Parser>() for every corpus parser (corpus.rs)"));
     extra.insert("known_findings_reported".to_string(), json!(known));
+    // the check script runs Miri first (thorough tier) and tells us how it went
+    let miri_status = std::env::var("VERIF_MIRI_STATUS").unwrap_or_else(|_| "not-run (quick tier)".into());
+    let miri_seeds = std::env::var("VERIF_MIRI_SEEDS").unwrap_or_default();
+    extra.insert("miri".to_string(), json!({"status": miri_status, "seeds": miri_seeds, "flags": "-Zmiri-many-seeds -Zmiri-preemption-rate=0.1", "scenario": "3 std threads x 2 parses on one shared built-in-lexer parser, two grammars"}));
+    if miri_status == "fail" {
+        let log = std::env::var("VERIF_MIRI_LOG").unwrap_or_default();
+        let key = "miri-clean|data-race-or-ub-or-mismatch".to_string();
+        if let Some(f) = findings.known("C27", &key) {
+            known += 1;
+            println!("KNOWN-FINDING: property=C27 {} [key: {key}] replay={log}", f.what);
+        } else {
+            unlisted += 1;
+            println!("VIOLATION property=C27 replay={log}");
+            println!("  key={key}\n  Miri reported a data race, undefined behaviour or a wrong result; see the log (each failing seed replays with -Zmiri-seed=<n>)");
+        }
+    }
     if execs == 0 {
         simcore::harness_error("C27: no shuttle execution completed");
     }
@@ -326,6 +342,62 @@ fn replay_c27(path: &str) -> i32 {
     }
 }
 
+/// Real std threads sharing one built-in-lexer parser; meant to run under
+/// `cargo +nightly miri run` (seeded pre-emptive scheduler, data-race and UB detection).
+/// Touches no file and no environment, so Miri's isolation can stay on.
+fn run_miri() -> i32 {
+    use rt::{Ctx, Plan};
+    let names = ["expr_lex::Expr", "list_lex::Seq"];
+    let inputs: [&[&str]; 2] = [&["n + n * ( n )", "n + + n", "( n", ""], &["[ x , x , ]", "[ x x", "[ ]"]];
+    for (pi, name) in names.iter().enumerate() {
+        let fresh = corpus::make(name).expect("corpus parser");
+        let expected: Vec<(rt::Outcome, Vec<rt::Ev>)> = inputs[pi]
+            .iter()
+            .map(|t| {
+                let ctx = Ctx::new(Plan::default());
+                let o = fresh.parse_str(&ctx, t);
+                let l = ctx.log.borrow().clone();
+                (o, l)
+            })
+            .collect();
+        let shared: std::sync::Arc<dyn sut::Sut> = std::sync::Arc::from(corpus::make(name).expect("corpus parser"));
+        let expected = std::sync::Arc::new(expected);
+        let mut hs = Vec::new();
+        for th in 0..3usize {
+            let sh = shared.clone();
+            let ex = expected.clone();
+            let ins: Vec<String> = inputs[pi].iter().map(|s| s.to_string()).collect();
+            hs.push(std::thread::spawn(move || {
+                for round in 0..2 {
+                    let i = (th + round) % ins.len();
+                    let ctx = Ctx::new(Plan::default());
+                    let o = sh.parse_str(&ctx, &ins[i]);
+                    let l = ctx.log.borrow().clone();
+                    if o != ex[i].0 || l != ex[i].1 {
+                        return Err(format!("thread {th} input {i}: {:?} vs fresh {:?}", o, ex[i].0));
+                    }
+                }
+                Ok(())
+            }));
+        }
+        for h in hs {
+            match h.join() {
+                Ok(Ok(())) => {}
+                Ok(Err(e)) => {
+                    println!("C27-MIRI-MISMATCH parser={name} {e}");
+                    return 1;
+                }
+                Err(_) => {
+                    println!("C27-MIRI-PANIC parser={name}");
+                    return 1;
+                }
+            }
+        }
+    }
+    println!("miri scenario ok");
+    0
+}
+
 fn replay(path: &str) -> i32 {
     let doc: Value = serde_json::from_slice(&std::fs::read(path).unwrap_or_else(|e| simcore::harness_error(&format!("{path}: {e}")))).unwrap_or_else(|e| simcore::harness_error(&format!("bad replay file: {e}")));
     let w = World::new();
@@ -349,6 +421,9 @@ fn replay(path: &str) -> i32 {
 
 fn main() {
     let args: Vec<String> = std::env::args().skip(1).collect();
+    if args.first().map(|s| s.as_str()) == Some("miri") {
+        std::process::exit(run_miri());
+    }
     let seed = simcore::env_seed();
     println!("VERIF_SEED={seed}");
     let mode = args.first().map(|s| s.as_str()).unwrap_or("");
@@ -359,6 +434,25 @@ fn main() {
         "c27" => run_c27(tier, seed),
         "replay-c27" => replay_c27(tier),
         "replay" => replay(tier),
+        "selftest-determinism" => {
+            // same seed, different worker counts, fresh corpus instances: identical digests
+            let a = c17::sweep(&World::new(), seed, 400, 1);
+            let b = c17::sweep(&World::new(), seed, 400, workers());
+            let c = c17::sweep(&World::new(), seed + 1, 400, workers());
+            let s1 = c27::prepare(seed);
+            let s2 = c27::prepare(seed);
+            let mut same27 = s1.targets.len() == s2.targets.len();
+            for (x, y) in s1.targets.iter().zip(s2.targets.iter()) {
+                same27 &= x.cases.len() == y.cases.len() && x.cases.iter().zip(y.cases.iter()).all(|(p, q)| p.toks == q.toks && p.log == q.log && p.out == q.out);
+            }
+            println!("parsesim selftest-determinism: digests {:016x} / {:016x} (other seed {:016x}), {} vs {} faulted parses, C27 expectations equal: {same27}", a.stats.digest, b.stats.digest, c.stats.digest, a.stats.faulted_parses, b.stats.faulted_parses);
+            if a.stats.digest != b.stats.digest || a.stats.faulted_parses != b.stats.faulted_parses || a.stats.digest == c.stats.digest || !same27 {
+                simcore::EXIT_HARNESS
+            } else {
+                0
+            }
+        }
+        "miri" => run_miri(),
         "corpus" => {
             let w = World::new();
             for s in &w.suts {
